@@ -109,6 +109,15 @@ Theorem C08_conflict_always_raises : forall ft ops c b,
 Proof. exact reachable_conflict_raises. Qed.
 Print Assumptions C08_conflict_always_raises.
 
+(* the same for ProvDocument.unified() on any document of any reachable world: it returns only when neither the
+   document's own records nor the records of any of its bundles hold a strict conflict *)
+Theorem C08_document_returns_no_conflict : forall ft ops d dd nd,
+  let w := wrun ft ops in
+  get_doc w d = Some dd -> doc_unified (wft w) dd = OK nd ->
+  ~ group_sconflict (brecs (dmain dd)) /\ forall k b, In (k, b) (dbundles dd) -> ~ group_sconflict (brecs b).
+Proof. exact reachable_doc_unified_no_conflict. Qed.
+Print Assumptions C08_document_returns_no_conflict.
+
 (* the hypotheses are met and the conclusion is the first disjunct: three activities under one identifier, the first
    without prov:startTime, the second and third with different ones *)
 Definition ex_late_conflict : list prec :=
